@@ -44,7 +44,9 @@ def input_class(ev):
     if op == "enum" and ev.get("via") == "raw":
         lim = ev.get("limit", 0)
         lc = "absent" if lim == 0 else ">max" if lim > 10000 else "n"
-        return "limit=%s,wait=%s,%s" % (lc, ["absent", "0", "pos"][ev.get("wait", 0)], "after" if ev.get("after") else "start")
+        if ev.get("wait", 0) == 2:
+            return "longpoll+after" if ev.get("after") else "longpoll"
+        return "limit=%s,%s" % (lc, "after" if ev.get("after") else "start")
     if op == "stat" and ev.get("via") == "raw":
         n = ev.get("n", 0)
         return "n%s1000,%s%s" % ("<=" if n <= 1000 else ">", ev.get("method"), "" if ev.get("ver", True) else ",nover")
